@@ -264,5 +264,6 @@ pub fn parts() -> Vec<Box<dyn PartDyn>> {
         shrink_budget: 0,
         confirm_runs: 2,
             fuzz: None,
+            watchdog_s: 60,
     })]
 }
